@@ -52,7 +52,7 @@ Definition shape_b (a : app) : bool :=
   all_idx (length a) (fun i =>
     let p := port_at a i in
     (0 <? p_len p)%nat && (p_array p || Nat.eqb (p_len p) 1) &&
-    (if p_nodef p then Nat.eqb (length (p_init p)) (p_len p)
+    (if p_nodef p then Nat.eqb (length (p_init p)) (p_len p) && is_none (p_sel p)
      else Nat.eqb (length (p_default p)) (p_len p) &&
           forallb (fun kv => Nat.eqb (length (snd kv)) (p_len p)) (p_table p))).
 
@@ -70,6 +70,17 @@ Definition stable_b (a : app) (st : state) : bool :=
                       | Some y => scalar_eqb y x
                       | None => false
                       end) (val_at st i)) (saved_idx a st).
+
+(* ReachProofs.elem_stable / defaults_stable / msg_ok *)
+Definition elem_stable_b (p : port) (x : scalar) : bool :=
+  match store p (shown p x) with Some y => scalar_eqb y x | None => false end.
+Definition defaults_stable_b (a : app) : bool :=
+  all_idx (length a) (fun i =>
+    let p := port_at a i in
+    p_nodef p || (forallb (elem_stable_b p) (p_default p) &&
+                  forallb (fun kv => forallb (elem_stable_b p) (snd kv)) (p_table p))).
+Definition msg_ok_b (p : port) (v : scalar) : bool :=
+  match store p v with Some v' => elem_stable_b p v' | None => true end.
 
 Definition full_conditions_b (a : app) (st : state) : bool :=
   wf_app_b a && Nat.eqb (length st) (length a) &&
